@@ -383,6 +383,9 @@ def hook(name):
             m = args[1]
             v = _msg_get(I, m, "34")
             g["A"].append((m, v))
+            # program order of the application callback relative to the journal operations (C09: kill points)
+            if g.get("conn") is not None:
+                g["conn"].f["_journaler"].f["ops"].append(("hook", "on_message"))
         if name == "should_replay":
             f = I.ufun("should_replay", z3.IntSort(), z3.BoolSort())
             raise Outside("should_replay outside the resend contract")
@@ -507,6 +510,7 @@ def observe(I, conn, out, pre):
         o["fault"] = dict(I.ctx.ghost["fault"])
     if I.ctx.ghost.get("resumed_at"):
         o["resumed_at"] = list(I.ctx.ghost["resumed_at"])
+    o["resend_contract_used"] = bool(I.ctx.ghost.get("resend_contract_used"))
     I.ctx.observe.update(o)
     I.ctx.notes.append(("outcome", o["outcome"]))
     return post
@@ -554,9 +558,25 @@ def conn_native_case(op, inputs, msg_name="m", args=None, with_msg=True, comp_id
     return case
 
 
+def drop_resend_predictions(eo):
+    """A path through the over-approximating callee contract of _process_resend chooses the kind of outcome
+    (ignored / served / failed ...) freely: what the contract havocs on it is no prediction for one concrete run."""
+    if eo.get("resend_contract_used"):
+        # the contract instance of a caller havocs every field whose clause that caller does not need, and the
+        # continuation of the dispatcher runs on the havocked state: nothing on such a path predicts a concrete run
+        eo.clear()
+        eo["__not_a_prediction__"] = True
+    elif any(w.get("opaque") for w in eo.get("W", [])):
+        for k in ("W", "EV", "st", "was_active", "nout", "J_out", "J_in"):
+            eo.pop(k, None)
+    return eo
+
+
 def conn_agrees(engine_obs, native):
     """List of mismatches between the engine's post view (under the witness model) and CPython's."""
     bad = []
+    if engine_obs.get("__not_a_prediction__"):
+        return bad
     if "harness_error" in native:
         return ["native harness error: " + native["harness_error"][-300:]]
     if engine_obs.get("outcome") != native["outcome"]:
